@@ -556,8 +556,10 @@ def run_exit_names(case, res):
 def make_sampled_cfg(seed, i):
     rng = engine.rng_for(seed, NUM, i)
     r = rng.random
-    cfg = campaign.gen_cfg(rng, noise_p=0.3, averaging_p=0.2, box_p=0.3, proj_p=0.06, reg_p=0.05, restarts_p=0.5, nmax=4, mmax=6,
-                           maxfuns=(5, 15, 40, 80), term_p=0.4)
+    flat = i % 9 == 4    # flat / partly flat objectives: degenerate models for every step solver (trust region, geometry, projected)
+    cfg = campaign.gen_cfg(rng, noise_p=(0.0 if flat else 0.3), averaging_p=0.2, box_p=0.3, proj_p=(0.3 if flat else 0.06), reg_p=(0.15 if flat else 0.05),
+                           restarts_p=0.5, nmax=4, mmax=6, maxfuns=(5, 15, 40, 80), term_p=0.4,
+                           kinds=(("const", "plateau") if flat else ("linear", "sinlin", "exp", "rosen")))
     up = cfg["user_params"]
     n = cfg["prob"]["n"]
     # rarely used switches, values strictly inside their ranges
